@@ -253,6 +253,20 @@ class Executor3(Executor2):
         return Executor2.call(self, st, f, args, kw, ln)
 
     def subscript_other(self, e, st, base):
+        if base.kind == "reflist" and isinstance(e.slice, ast.Slice):
+            # L[k:] for a literal k >= 0: a new list value holding the elements from position k on
+            sl = e.slice
+            if sl.upper is not None or sl.step is not None or sl.lower is None:
+                raise Unsupported("list slice other than L[k:] at line %s" % getattr(e, "lineno", "?"))
+            lo = self._as_pyint(self.ev(sl.lower, st))
+            if lo is None or lo < 0:
+                raise Unsupported("list slice with a non-literal or negative start")
+            el, n, _, _ = self._rl(st, base)
+            self.fresh_n += 1
+            el2 = z3.Const("slice!%d" % self.fresh_n, el.sort())
+            j = z3.Int("slk!%d" % self.fresh_n)
+            st.assume(z3.ForAll([j], z3.Select(el2, j) == z3.Select(el, j + lo)))
+            return SV("reflist", None, cls=base.cls, x=("value", el2, z3.If(n >= lo, n - lo, z3.IntVal(0)), self._owner_of(base)))
         if base.kind == "reflist":
             ln = getattr(e, "lineno", None)
             idx = self.ev(e.slice, st)
